@@ -1,0 +1,24 @@
+//go:build verif
+
+package ipfslog
+
+import "sync/atomic"
+
+// verifHook is only compiled in with the "verif" build tag. It lets an
+// external runtime monitor observe (and delay) named points inside the log.
+var verifHook atomic.Pointer[func(l *IPFSLog, point string)]
+
+// SetVerifHook installs (or, with nil, removes) the monitor callback.
+func SetVerifHook(f func(l *IPFSLog, point string)) {
+	if f == nil {
+		verifHook.Store(nil)
+		return
+	}
+	verifHook.Store(&f)
+}
+
+func verifPoint(l *IPFSLog, point string) {
+	if f := verifHook.Load(); f != nil {
+		(*f)(l, point)
+	}
+}
